@@ -53,12 +53,26 @@ func genNumDatum(r *crsgen.R, kind string, noSphere bool) numDatum {
 	switch kind {
 	case "none":
 		d.none = true
-	case "towgs84_3":
-		d.hm = refproj.Helmert{Dx: r.Range(-800, 800), Dy: r.Range(-800, 800), Dz: r.Range(-800, 800), N: 3}
-		d.clause += " +towgs84=" + F(d.hm.Dx) + "," + F(d.hm.Dy) + "," + F(d.hm.Dz)
-	case "towgs84_7":
-		d.hm = refproj.Helmert{Dx: r.Range(-800, 800), Dy: r.Range(-800, 800), Dz: r.Range(-800, 800), Rx: r.Range(-8, 8), Ry: r.Range(-8, 8), Rz: r.Range(-8, 8), S: r.Range(-25, 25), N: 7}
-		d.clause += " +towgs84=" + strings.Join([]string{F(d.hm.Dx), F(d.hm.Dy), F(d.hm.Dz), F(d.hm.Rx), F(d.hm.Ry), F(d.hm.Rz), F(d.hm.S)}, ",")
+	case "towgs84_3", "towgs84_7":
+		v := []float64{r.Range(-800, 800), r.Range(-800, 800), r.Range(-800, 800)}
+		if kind == "towgs84_7" {
+			v = append(v, r.Range(-8, 8), r.Range(-8, 8), r.Range(-8, 8), r.Range(-25, 25))
+		}
+		p := make([]string, len(v))
+		for i := range v {
+			p[i] = F(v[i])
+		}
+		crsgen.SparseTowgs84(r, p) // exact zeros: scale-only, rotation-only, single-term shifts
+		for i := range v {
+			if p[i] == "0" {
+				v[i] = 0
+			}
+		}
+		d.hm = refproj.Helmert{Dx: v[0], Dy: v[1], Dz: v[2], N: len(v)}
+		if len(v) == 7 {
+			d.hm.Rx, d.hm.Ry, d.hm.Rz, d.hm.S = v[3], v[4], v[5], v[6]
+		}
+		d.clause += " +towgs84=" + strings.Join(p, ",")
 	}
 	return d
 }
